@@ -4,8 +4,10 @@
 // epsilon, ~1e-11 here): C11 demands the same values at every point farther than epsilon from the input
 // edges, so the demanded pixel sets and areas (to 1e-9) are unchanged; only the `lattice` clause is dropped.
 // A program is {"K":k,"prog":[step...]}; a step is
-//   {"a":"Leaf","rule":"Positive"|"EvenOdd","cs":[[[X,Y]..]..]}   (doubled integer coordinates)
-//   {"a":"Bool","op":..,"x":i,"y":j,"sym":b} | {"a":"Batch","op":..,"xs":[..],"sym":b} | {"a":"Xf","g":..,"x":i}
+//   {"a":"Leaf","rule":"Positive"|"EvenOdd","cs":[[[X,Y]..]..],"via":..}   (doubled integer coordinates;
+//        via = which constructor: "polys" | "simple" | "rect" | "square", see Xsec.tla!LeafVia)
+//   {"a":"Bool","op":..,"x":i,"y":j,"sym":b,"form":"method"|"operator"|"assign"}
+//   {"a":"Batch","op":..,"xs":[..],"sym":b} | {"a":"Xf","g":..,"x":i}   (g: Xsec.tla!Gen2)
 // (x, y, xs are 1-based indices of earlier steps) and carries what the
 // specification demands of its value: "pix" (encoded pixels whose centre is
 // inside), "n" = |pix|, "lat" (value is lattice-rectilinear: region = union of
@@ -197,12 +199,34 @@ struct XRunner {
               v.x += jitter * rnd();
               v.y += jitter * rnd();
             }
-        o.cs = st["rule"] == "EvenOdd" ? CrossSection::EvenOdd(cs) : CrossSection(cs);
+        const std::string via = jitter > 0 ? "polys" : st.value("via", "polys");
+        const bool eo = st["rule"] == "EvenOdd";
+        if (via == "rect" || via == "square") {
+          // a counter-clockwise lattice rectangle under the Positive rule (Xsec.tla!LeafVia)
+          Rect r;
+          for (auto& v : cs[0]) r.Union(v);
+          o.cs = via == "rect" ? CrossSection(r) : CrossSection::Square(r.Size()).Translate(r.min);
+        } else if (via == "simple") {
+          o.cs = eo ? CrossSection::EvenOdd(cs[0]) : CrossSection(cs[0]);
+        } else {
+          o.cs = eo ? CrossSection::EvenOdd(cs) : CrossSection(cs);
+        }
       } else if (a == "Bool") {
         const CrossSection& x = objs[st["x"].get<int>() - 1].cs;
         const CrossSection& y = objs[st["y"].get<int>() - 1].cs;
         const OpType op = OpOf(st["op"]);
-        o.cs = x.Boolean(y, op);
+        const std::string form = st.value("form", "method");
+        if (form == "operator") {
+          o.cs = op == OpType::Add ? x + y : (op == OpType::Subtract ? x - y : x ^ y);
+        } else if (form == "assign") {
+          CrossSection t = x;
+          if (op == OpType::Add) t += y;
+          else if (op == OpType::Subtract) t -= y;
+          else t ^= y;
+          o.cs = t;
+        } else {
+          o.cs = x.Boolean(y, op);
+        }
         if (st["sym"].get<bool>()) swapped = y.Boolean(x, op);
       } else if (a == "Batch") {
         std::vector<CrossSection> xs, rev;
